@@ -245,8 +245,22 @@ pub fn sv_program(rng: &mut Rng, items: usize) -> String {
 
 pub fn lib_program(rng: &mut Rng) -> String {
     let mut out = String::new();
-    for i in 0..1 + rng.below(3) {
-        match rng.below(4) {
+    for i in 0..1 + rng.below(4) {
+        match rng.below(10) {
+            4 => out.push_str(&format!("library qlib{} \"/proj/lib/foo*.v\", \"../lib/\" -incdir \"/proj/inc\", ./i2;\n", i)),
+            5 => out.push_str(&format!(
+                "config cfgi{};\n  design lib{}.top lib{}.other;\n  instance top.u{} liblist lib{} work;\n  instance top.u{}.v use lib{}.cell{};\n  cell mux use lib{}.mux2 :config;\n  cell lib{}.adder liblist lib{};\nendconfig : cfgi{}\n",
+                i, i, i, i, i, i, i, i, i, i, i, i
+            )),
+            6 => out.push_str(&format!(
+                "config cfgp{};\n  localparam P = {};\n  design top;\n  default liblist;\n  instance top.a use #(.W({}), .D());\nendconfig\n",
+                i,
+                number(rng),
+                number(rng)
+            )),
+            7 => out.push_str(&format!("// map {}\n/* block */ library l{} a.v ; ;\n", i, i)),
+            8 => out.push_str(&format!("include \"other{}.map\";\nlibrary \\esc{}  x.v;\n", i, i)),
+            9 => out.push_str(&format!("`define LIBDIR{} ./gen\nlibrary gen{} `LIBDIR{}/x.v;\n", i, i, i)),
             0 => out.push_str(&format!("library lib{} a{}.v, b/*.v;\n", i, rng.below(9))),
             1 => out.push_str(&format!("library rtl{} ./src/*.sv -incdir ./inc;\n", i)),
             2 => out.push_str(&format!("include other{}.map;\n", i)),
